@@ -31,7 +31,7 @@ ASSUMPTIONS = [
     "faults only at calls leaving the package (OS calls, user callbacks), never at arbitrary bytecode boundaries",
     "get_defaults() is compared by value and type (it returns new objects by contract); action.default also by identity",
 ]
-PROBES = ["arg-with-nested-container", "op-failed", "op-moved-cwd", "sweep-site", "fault-fired", "instantiate-twice-objects", "chdir-restore-with-exception-in-flight", "ctor-aborted"]
+PROBES = ["reentered", "arg-with-nested-container", "op-failed", "op-moved-cwd", "sweep-site", "fault-fired", "instantiate-twice-objects", "chdir-restore-with-exception-in-flight", "ctor-aborted"]
 ANCHOR_FILES = ("_core", "_namespace", "_typehints", "_util", "_common")
 NO_SHRINK = ("parser/opts", "parser/opts/*", "world", "world/*")
 SHRINK_DICTS = ("ops/*/obj", "ops/*/env", "ops/*/base", "ops/*/ns")
@@ -484,9 +484,46 @@ def run_one(ctx, p, op, args, fault_plan=None):
     return o
 
 
+def _make_reenter_hook(ctx, p):
+    """what a re-entering user callback does: instantiate (twice) and dump a config of its own, on the same parser,
+    while the outer call is in progress; its argument must stay untouched and the two results must not share objects"""
+    from jsonargparse import Namespace
+
+    def hook(what):
+        sim = ctx.sim
+        o0 = run_op(lambda: p.parse_args([], _skip_validation=True))
+        if o0.kind != "ret":
+            return
+        cfg2 = o0.value
+        before = snap(cfg2)
+        n0 = len(sim.cb_log)
+        o1 = run_op(lambda: p.instantiate_classes(cfg2))
+        n1 = len(sim.cb_log)
+        o2 = run_op(lambda: p.instantiate_classes(cfg2))
+        n2 = len(sim.cb_log)
+        sim.probe("reentered")
+        with rt.suspended():
+            d = diff(before, snap(cfg2))
+            if d:
+                ctx.violation("argument-modified", {"op": "inst(reentrant)", "what": "arg-" + d[1].split(" ")[0], "arg": "cfg", "path": shape(d[0]), "fault": "reenter"}, "instantiate_classes called from inside a user callback changed its argument at %s (%s)" % d)
+            if o1.kind == "ret" and o2.kind == "ret":
+                a, b = [], []
+                _simobjs(o1.value, a)
+                _simobjs(o2.value, b)
+                built = set(c[2] for c in sim.cb_log[n0:n2])
+                shared = set(map(id, a)) & set(map(id, b)) & built
+                if shared:
+                    ctx.violation("shared-instance", {"op": "inst(reentrant)", "what": "shared-instance", "cls": sorted(type(x).__name__ for x in a if id(x) in shared)[0], "fault": "reenter"}, "two instantiations made from inside a user callback share %d object(s)" % len(shared))
+            STATE.setdefault("keepalive", []).append((o1.value, o2.value))  # ids stay unique for the outer oracle
+            del sim.cb_log[n0:]  # the nested call's constructions are not part of the outer operation's log
+
+    return hook
+
+
 def _sweep_sub(sc, root, i, fault_plan):
     ctx = harness.Ctx(rt.CUR, sc, sc.get("tier", "quick"), root)
     ctx.ns0 = STATE["ns0"]
+    rt.CUR.reenter_hook = _make_reenter_hook(ctx, STATE["p"])
     rt.CUR.begin_op(i, sc["ops"][i]["kind"])
     o = run_one(ctx, STATE["p"], sc["ops"][i], STATE["args"], fault_plan)
     return ctx.sub_result({"kinds": list(rt.CUR.op_kinds), "brief": o.brief()})
@@ -541,6 +578,8 @@ def execute(sc, ctx):
                         fts = []
                         if sk.startswith("cb:"):
                             fts.append({"type": "raise", "cls": sweep["cb_cls"]})
+                            if sk.endswith(".__init__") and len([x for x in swept if x.startswith("reenter@")]) < 2:
+                                fts.append({"type": "reenter", "what": "inst"})
                         else:
                             if sk in FAILABLE:
                                 fts.append({"type": "oserror", "errno": sweep["errno"]})
